@@ -12,6 +12,12 @@ use std::io::Write;
 use std::process::{Command, Stdio};
 use std::time::{Duration, Instant};
 
+// The photographing allocator (sim::spy) is installed here, in the binary, and not in the library: library code
+// that drops a boxed instance must see `__rust_dealloc` as the opaque, free-like call it is for every user of the
+// crates (that is what lets the optimiser delete ordinary stores into a block that is about to be freed).
+#[global_allocator]
+static GLOBAL: sim::spy::Spy = sim::spy::Spy;
+
 fn arg<'a>(args: &'a [String], name: &str) -> Option<&'a str> {
     args.iter().position(|a| a == name).and_then(|i| args.get(i + 1)).map(|s| s.as_str())
 }
